@@ -150,11 +150,18 @@ func (r *Runner) lockAcquire(st *State, p *Place, mode string, pos token.Pos) {
 	}
 	// havoc the fields guarded by this mutex, then assume the lock invariant
 	owner, mu := r.lockOwner(p)
-	if owner == nil {
-		return
+	var ts *TypeSpec
+	if owner != nil {
+		ts = r.typeSpecOf(owner.Root)
 	}
-	ts := r.typeSpecOf(owner.Root)
 	if ts == nil {
+		// no type contract for the owner: nothing is havocked; the acquisition is still the
+		// reference point of critical-section postconditions
+		r.applyRely(st)
+		if st.lockSnap == nil {
+			st.lockSnap = map[string]*State{}
+		}
+		st.lockSnap[key] = r.shadow(st)
 		return
 	}
 	stt := owner.Root.Underlying().(*types.Struct)
@@ -252,6 +259,9 @@ func (r *Runner) lockRelease(st *State, p *Place, pos token.Pos, reader bool) {
 	}
 	// critical-section postconditions of the function under verification
 	if r.curSpec != nil && len(r.curSpec.CSEnsures) > 0 && len(st.frames) > 0 {
+		if st.lockSnap[key] == nil {
+			panic(specErr{"critical-section postconditions declared but the lock was not acquired in this function"})
+		}
 		if snap := st.lockSnap[key]; snap != nil {
 			top := st.frames[0]
 			env := r.newEnv(st, top.fn.Pkg)
